@@ -457,7 +457,9 @@ func (w *Workload) GenInfo(r *model.Rand) Base {
 		t := model.Pick(r, roots)
 		sym := model.Pick(r, w.ChordSyms)
 		if sym != "" && (sym[0] >= '0' && sym[0] <= '9' || strings.ContainsRune("CDEFGABRb#", rune(sym[0]))) {
-			t += "_"
+			if !r.Chance(1, 5) {
+				t += "_"
+			} // else: the underscore is forgotten (C7, Bb9): whatever the tree makes of it, it makes it every time
 		}
 		b.Argv = []string{"info", "chord", "describe", "-t", t + sym}
 		if r.Chance(1, 2) {
